@@ -31,3 +31,5 @@ func vxSameArray(a, b []byte) bool
 func vxSetPreempt(n int)
 func vxRaceOn(on bool)
 func vxSymbolic() bool
+func vxAll(c ...bool) bool
+func vxAny(c ...bool) bool
